@@ -93,6 +93,9 @@ func cmdCheck(eng *Engine, args []string, tier string, keep, verbose bool, start
 		if hasProp(fc.Props, prop) {
 			if fc.Trusted || fc.Assumed || fc.FnType {
 				trusted = append(trusted, fc)
+				if fc.Trusted && len(fc.AtCalls) > 0 {
+					fcs = append(fcs, fc) // body walked for its call-site assertions only (VerifyFunc)
+				}
 			} else {
 				fcs = append(fcs, fc)
 			}
